@@ -23,7 +23,7 @@ class _DelayRec(K.Rec):
     pass
 
 
-def encode(with_delay=True):
+def encode(with_delay=True, via_scheduler=False):
     """-> (paths, vars, exec) of the real do_work"""
     M = K.methods_of(Task)
     flops, data, cpu, bw, dur0, eft, extra = z3.Ints('flops data cpu bw dur0 eft extra')
@@ -33,7 +33,19 @@ def encode(with_delay=True):
                  delay_offset=z3.IntVal(0), task_status=None, ast=z3.IntVal(-1), aft=z3.IntVal(-1), id='t', io={})
     machine = K.Rec(cpu=cpu, bandwidth=bw)
     env = K.Rec(now=z3.IntVal(0))
-    paths = ex.run(M['do_work'], [task, env, machine, None])
+    task.set('allocated_machine_id', 'planned-elsewhere')
+    if via_scheduler:
+        # the scheduler path: Task.update_allocation(machine) first, then do_work on that machine
+        paths = []
+        for (s, o) in ex.run(M['update_allocation'], [task, machine]):
+            if o.kind == 'raise':
+                paths.append((s, o))
+                continue
+            st = K.State({'self': s.env['self'], 'env': K.Rec(now=z3.IntVal(0)), 'machine': s.env['machine'], 'predecessor_allocations': None},
+                         list(s.pc), z3.IntVal(0), [])
+            paths += ex.block(M['do_work'].body, st)
+    else:
+        paths = ex.run(M['do_work'], [task, env, machine, None])
     return paths, dict(flops=flops, data=data, cpu=cpu, bw=bw, dur0=dur0, eft=eft, extra=extra), ex
 
 
@@ -57,7 +69,7 @@ def runtime_term(paths):
 
 
 def s1(spec):
-    paths, v, ex = encode()
+    paths, v, ex = K.encoding(encode)
     ob = K.Obligations()
     A = assumptions(v)
     nom = nominal(v)
@@ -76,8 +88,19 @@ def s1(spec):
         ob.add(f'path{k}: do_work exits at aft-1', A + s.pc, s.clock != t.get('aft') - 1, ex.lemmas)
         ob.add(f'path{k}: delay added => flagged', A + s.pc + [v['extra'] > 0], z3.Not(t.get('delay_flag')), ex.lemmas)
         ob.add(f'path{k}: ast is the entry instant', A + s.pc, t.get('ast') != 0, ex.lemmas)
+    # the same through the scheduler path (update_allocation, then do_work)
+    spaths, sv, sex = K.encoding(encode, via_scheduler=True)
+    snom = nominal(sv)
+    for k, (s, o) in enumerate(spaths):
+        if o.kind != 'fall':
+            ob.add(f'scheduler path {k} ends by {o.kind}', assumptions(sv) + s.pc, z3.BoolVal(True), sex.lemmas)
+            continue
+        t = s.env['self']
+        run = t.get('aft') - t.get('ast')
+        ob.add(f'sched path{k}: runtime >= max(1, nominal+extra)', assumptions(sv) + s.pc, z3.Not(run >= z3.If(snom + sv['extra'] >= 1, snom + sv['extra'], 1)), sex.lemmas)
+        ob.add(f'sched path{k}: runtime <= max(1, nominal)+extra', assumptions(sv) + s.pc, z3.Not(run <= z3.If(snom >= 1, snom, 1) + sv['extra']), sex.lemmas)
     # ingest task: no demands, no delay model, duration = observation duration >= 1
-    ipaths, iv, iex = encode(with_delay=False)
+    ipaths, iv, iex = K.encoding(encode, with_delay=False)
     for k, (s, o) in enumerate(ipaths):
         t = s.env['self']
         ob.add(f'ingest path{k}: runtime == observation duration', assumptions(iv) + s.pc + [iv['flops'] == 0, iv['data'] == 0, iv['dur0'] >= 1],
@@ -97,7 +120,7 @@ def s1(spec):
     res = ob.discharge()
     bad = [r for r in res if r['z3'] != 'unsat']
     disagree = [r for r in res if r['z3'] == 'unsat' and r.get('cvc5') == 'sat']
-    out = {'paths': len(paths) + len(ipaths), 'queries': ex.queries + iex.queries + len(res), 'solver_s': round(sum(r['z3_s'] for r in res), 2),
+    out = {'paths': len(paths) + len(ipaths) + len(spaths), 'queries': ex.queries + iex.queries + sex.queries + len(res), 'solver_s': round(sum(r['z3_s'] for r in res), 2),
            'obligations': len(res), 'discharged': sum(1 for r in res if r['z3'] == 'unsat'),
            'detail': {'lemmas_used': sorted(ex.lemmas), 'cvc5_agree': sum(1 for r in res if r.get('cvc5') == 'unsat'),
                       'cvc5_no_answer': sum(1 for r in res if r.get('cvc5') not in ('unsat', 'sat', None))},
@@ -119,6 +142,8 @@ def s1(spec):
         m = sat[0]['model']
         out['status'] = 'REFUTED'
         out['cex'] = {n: int(m.get(n, '0')) for n in ['flops', 'data', 'cpu', 'bw', 'dur0', 'extra']}
+        if sat[0]['name'].startswith('sched'):
+            out['cex']['sched'] = 1
         if 'monotone' in sat[0]['name']:
             out['cex'].update({n + '2': int(m.get(n + '2', m.get(n, '0'))) for n in ['flops', 'data', 'cpu', 'bw']})
         out['cex_message'] = f"{sat[0]['name']}: {m}"
@@ -138,11 +163,13 @@ class _Extra(DelayModel):
         return r + self.x
 
 
-def real_run(flops, data, cpu, bw, dur0, extra):
+def real_run(flops, data, cpu, bw, dur0, extra, sched=0):
     env = simpy.Environment()
     env.run(until=3)
     m = Machine('m', cpu, 1, 1, bw)
     t = Task('t', 0, dur0, 'm', [], flops, data, {}, _Extra(extra))
+    if sched:
+        t.update_allocation(m)          # what Scheduler._process_current_schedule does before the cluster runs the task
     p = env.process(t.do_work(env, m, None))
     env.run(until=p)
     return t, env.now
@@ -171,10 +198,10 @@ def validate(paths, v):
     return len(cases), mism
 
 
-def s1_tag(flops, data, cpu, bw, dur0, extra, flops2=None, data2=None, cpu2=None, bw2=None):
+def s1_tag(flops, data, cpu, bw, dur0, extra, flops2=None, data2=None, cpu2=None, bw2=None, sched=0):
     """concrete oracle on the real code (replay of a solver model)"""
     def run(f, d, c, b):
-        t, end = real_run(f, d, c, b, dur0, extra)
+        t, end = real_run(f, d, c, b, dur0, extra, sched)
         nom = max(f // c, d // b) if (f > 0 or d > 0) else dur0
         r = t.aft - t.ast
         if r < max(1, nom + extra) or r > max(1, nom) + extra:
